@@ -164,7 +164,7 @@ class RustHarness:
         raw = self.proc.ask_raw("%s %s %s %s" % (d, t, op, arg), timeout)
         if raw is None:
             why = self.proc.last_death or ""
-            return {"r": "timeout" if why == "timeout" else "abort", "m": why}
+            return {"r": "timeout" if str(why).startswith("timeout") else "abort", "m": why}
         try:
             return json.loads(raw)
         except Exception:
